@@ -428,8 +428,8 @@ func StackAware(t *rapid.T, flags interp.Flags, maxOps int) Program {
 	for i := 0; i < nPush; i++ {
 		b.pushOperand("u")
 	}
-	if rapid.IntRange(0, 5).Draw(t, "unlock_ops") == 0 {
-		b.segment(rapid.IntRange(1, 3).Draw(t, "unlock_n"))
+	if rapid.IntRange(0, 2).Draw(t, "unlock_ops") == 0 {
+		b.segment(rapid.IntRange(1, 5).Draw(t, "unlock_n"))
 		for b.alt > 0 { // alt stack does not survive the script boundary
 			b.emit(0x6c)
 			b.alt--
